@@ -100,7 +100,7 @@ PLANS["C18"] = {
 
 G1_RULE = ("a case is a random program from the control-flow grammar (literals, stack words, if/else/then, case/of/endof/endcase, "
            "begin/until, begin/while/repeat, begin/repeat, break, do/loop with I J K, nested and redefined and recursive "
-           "definitions, locals, global variables; empty bodies and zero-trip loops included; 70% type-safe, 15% with one planted "
+           "definitions, locals and global variables incl. re-declarations that shadow, case with and without default code; empty bodies and zero-trip loops included; 70% type-safe, 15% with one planted "
            "build-time or run-time failure, 15% with one structurally infinite loop), rendered with random whitespace, CRLF, "
            "comments and multi-byte text")
 
@@ -120,7 +120,8 @@ PLANS["C01"] = {
     "require": [need("succeeding_programs_compared", 20000), need("divergent_confirmed_or_checked", 2000), need_set("nesting_pairs", 70),
                 need_set("planted_kinds_matched", 10), need("empty_bodies", 10000), need("zero_trip_loops", 5000),
                 need("jump_distance:Jump:0", 100), need("jump_distance:Loop:0", 100), need("locals_in_loops", 500),
-                need("redefinitions", 1000), need("recursive_defs", 1000), need_set("opcodes", 17)],
+                need("redefinitions", 1000), need("recursive_defs", 1000), need_set("opcodes", 17),
+                need("var_redeclarations", 200), need("local_redeclarations", 2000), need("case_without_default_code", 20000)],
 }
 
 PLANS["C15"] = {
@@ -136,4 +137,27 @@ PLANS["C15"] = {
                     "the configuration, not of the property)"],
     "require": [need("programs_ok", 10000), need("programs_failing", 1000), need_set("reverse_step_variants", 14), need_set("opcodes", 18),
                 need_set("features", 30), need_set("error_kinds_compared", 8)],
+}
+
+G2_RULE = ("a G2 program is a typed word soup over the whole dictionary (collections, tags, bit-string reads and packers that move the "
+           "input cursor, formatting, let patterns, foreach, enums, late binding, meta blocks, definitions with locals, deliberate "
+           "run-time failures) steered by an abstract typed stack so that most programs run deep")
+
+PLANS["C02"] = {
+    "jobs": {
+        "quick": [("", "release", 200000), ("", "dev", 16000)],
+        "thorough": [("", "release", 6000000), ("", "dev", 480000)],
+    },
+    "rule": "a case is one program (every third a G1 control-flow program, the others G2; " + G2_RULE + ") compiled, then single-stepped "
+            "with recording on while the dump hook records D0..Dn (n <= 400); then a seeded walk of 3n+6 rnext/next moves, a full rewind "
+            "(plus one rnext at the start, which must be a no-op) and a full replay; after every move the machine state (ip, data stack "
+            "incl. hidden part, frames with locals, loop records, builder marks, every heap cell) must equal the dump recorded for that "
+            "position. A step that fails ends the history: re-executing it from the rewound point must fail identically. distinct = "
+            "distinct instruction traces of >= 5 steps",
+    "assumptions": ["a failed step is not a completed step: one rnext after it must restore the state before it, or (when the failed "
+                    "instruction logged nothing) the state one instruction earlier; both are accepted",
+                    "stepping forward again *after* a failure without rewinding is outside the statement and not checked",
+                    "sources that fail to build are skipped and counted"],
+    "require": [need("moves_checked", 2000000), need_set("reverse_step_variants", 15), need_set("opcodes", 18), need_set("insn_and_log", 120),
+                need("histories_ending_in_failed_step", 1000), need("rnext_at_start_is_noop", 10000), need_set("features", 30)],
 }
